@@ -1,3 +1,134 @@
 // harnesses mounted as child module of agdb/src/storage/memory_storage.rs
 #[allow(unused_imports)]
 use super::*;
+
+use crate::storage::verif_h as sto_h;
+
+// ===========================================================================
+// C07 (storage part) on the real in-memory back end
+// ===========================================================================
+//
+// `MemoryStorage::read` slices its Vec (`&self.buffer[pos..end]`, `pos + len`
+// unchecked): any position or size that `Storage` derives from file content
+// without checking it against the file length panics here. Same damaged files
+// and oracle as the ArrStorage harnesses in storage_h.rs (see there for the
+// construction and why it is not a fully symbolic file); the back end is the
+// real `MemoryStorage`, so out-of-range reads are visible as failed checks.
+
+pub(crate) fn c07_mem(img: &[u8; sto_h::C07_N], n: usize) -> MemoryStorage {
+    // pushed byte by byte: a memcpy (`to_vec`) hides the header fields from
+    // CBMC's constant propagation
+    let mut buffer: Vec<u8> = Vec::with_capacity(sto_h::C07_N);
+    // 9 x 8 nested so that a small unwind bound covers it
+    let mut c = 0;
+    while c < sto_h::C07_N / 8 {
+        let mut k = 0;
+        while k < 8 {
+            let i = c * 8 + k;
+            if i < n {
+                buffer.push(img[i]);
+            }
+            k += 1;
+        }
+        c += 1;
+    }
+    MemoryStorage {
+        buffer,
+        name: String::new(),
+    }
+}
+
+//@ id=C07 tier=quick timeout=1200 cbmc="--max-field-sensitivity-array-size 200" args="--no-assertion-reach-checks" bounds="valid image [version][index 1: 8 bytes][index 3: 1 byte] (65 bytes), value bytes symbolic, truncated at the lengths 0 1 15 16 20 23 24 25 39 40 44 47 48 63 64 65 (every structural boundary -1/0/+1); back end MemoryStorage; read arguments: all u64; free index = contract model" desc="Storage::<MemoryStorage>::with_data on a truncated file returns Ok or Err without panic (no out-of-range slicing in MemoryStorage::read) or overflow; if it opens, every record of the table lies inside the file and every read entry point returns Ok or Err" kernel="Storage::with_data,Storage::read_records,Storage::read_record,Storage::extract_version,Storage::validate_or_update_version,MemoryStorage::read,MemoryStorage::write,MemoryStorage::resize,StorageRecords::set_record,StorageRecords::rebuild_free_index,Storage::value_size,Storage::value_as_bytes,Storage::value_as_bytes_at,Storage::value_as_bytes_at_size"
+#[kani::proof]
+#[kani::stub(std::fmt::format, crate::verif_support::fmt_stub)]
+#[kani::stub(crate::DbError::new, crate::verif_support::dberror_new_stub)]
+#[kani::stub(<crate::DbError as std::convert::From<std::array::TryFromSliceError>>::from, crate::verif_support::sliceerr_stub)]
+#[kani::stub(crate::storage::storage_records::StorageRecords::mark_free, crate::storage::storage_records::verif_h::c04_mark_free_model)]
+#[kani::unwind(27)]
+fn c07_mem_truncated() {
+    let img = sto_h::c07_valid_image();
+    // symbolic choice of the truncation point, one concrete run per point (a
+    // panic at one length must not hide the others)
+    let points: [usize; sto_h::C07_CUTS] = sto_h::C07_CUT_POINTS;
+    let pick: usize = kani::any();
+    kani::assume(pick < sto_h::C07_CUTS);
+    let mut opened = false;
+    let mut k = 0usize;
+    while k < sto_h::C07_CUTS {
+        if pick == k {
+            opened = sto_h::c07_open_case(c07_mem(&img, points[k]), 1);
+        }
+        k += 1;
+    }
+    kani::cover!(opened && pick == sto_h::C07_CUTS - 1, "the untruncated file opens");
+    kani::cover!(true, "end of harness reachable");
+}
+
+fn c07_mem_field(field: usize) {
+    let mut img = sto_h::c07_valid_image();
+    let v: u64 = kani::any();
+    kani::assume(v != 0); // 0 would only shift the walk onto the value bytes (covered by the truncation harness)
+    sto_h::c07_put64(&mut img, field, v);
+    let opened = sto_h::c07_open_case(c07_mem(&img, sto_h::C07_VALID_LEN), 3);
+    kani::cover!(opened, "opens for some value of the field");
+    kani::cover!(!opened, "rejected for some value of the field");
+    kani::cover!(true, "end of harness reachable");
+}
+
+//@ id=C07 tier=quick timeout=900 cbmc="--max-field-sensitivity-array-size 200" args="--no-assertion-reach-checks" bounds="valid 65-byte image, value bytes symbolic, size field of the last record (1 byte remains in the file) replaced by 2, 17, 33, 34, 2^63, 2^64-1 (symbolic choice, concrete run each) or left at 1; back end MemoryStorage; partial-read window: all u64; free index = contract model" desc="Storage::<MemoryStorage>::with_data on a file whose last record has an arbitrary size field returns Ok or Err without panic or overflow; if it opens, every record of the table lies inside the file and every read entry point returns Ok or Err (no out-of-range slicing in MemoryStorage::read)" kernel="Storage::with_data,Storage::read_records,Storage::read_record,MemoryStorage::read,StorageRecords::set_record,Storage::value_size,Storage::value_as_bytes,Storage::value_as_bytes_at,Storage::value_as_bytes_at_size"
+#[kani::proof]
+#[kani::stub(std::fmt::format, crate::verif_support::fmt_stub)]
+#[kani::stub(crate::DbError::new, crate::verif_support::dberror_new_stub)]
+#[kani::stub(<crate::DbError as std::convert::From<std::array::TryFromSliceError>>::from, crate::verif_support::sliceerr_stub)]
+#[kani::stub(crate::storage::storage_records::StorageRecords::mark_free, crate::storage::storage_records::verif_h::c04_mark_free_model)]
+#[kani::unwind(10)]
+fn c07_mem_bad_record_size() {
+    let base = sto_h::c07_valid_image();
+    let cases: [u64; 7] = [1, 2, 17, 33, 34, 1 << 63, u64::MAX];
+    let pick: usize = kani::any();
+    kani::assume(pick < 7);
+    let mut opened = false;
+    let mut k = 0usize;
+    while k < 7 {
+        if pick == k {
+            let mut img = base;
+            sto_h::c07_put64(&mut img, sto_h::C07_F_REC2_SIZE, cases[k]);
+            opened = sto_h::c07_open_case(c07_mem(&img, sto_h::C07_VALID_LEN), 3);
+        }
+        k += 1;
+    }
+    kani::cover!(opened && pick == 0, "the undamaged file opens");
+    kani::cover!(!opened && pick == 6, "a size of 2^64-1 is rejected");
+    kani::cover!(true, "end of harness reachable");
+}
+
+//@ id=C07 tier=quick timeout=900 cbmc="--max-field-sensitivity-array-size 200" args="--no-assertion-reach-checks" bounds="valid 65-byte image, value bytes symbolic, size field of the version record replaced by a symbolic non-zero u64; back end MemoryStorage; read arguments: all u64; free index = contract model" desc="Storage::<MemoryStorage>::with_data on a file whose version record has an arbitrary size field returns Ok or Err without panic or overflow (extract_version reads `size` bytes at offset 16); if it opens, every record of the table lies inside the file and every read entry point returns Ok or Err" kernel="Storage::with_data,Storage::read_records,Storage::read_record,Storage::extract_version,MemoryStorage::read,Storage::value_size,Storage::value_as_bytes,Storage::value_as_bytes_at,Storage::value_as_bytes_at_size"
+#[kani::proof]
+#[kani::stub(std::fmt::format, crate::verif_support::fmt_stub)]
+#[kani::stub(crate::DbError::new, crate::verif_support::dberror_new_stub)]
+#[kani::stub(<crate::DbError as std::convert::From<std::array::TryFromSliceError>>::from, crate::verif_support::sliceerr_stub)]
+#[kani::stub(crate::storage::storage_records::StorageRecords::mark_free, crate::storage::storage_records::verif_h::c04_mark_free_model)]
+#[kani::unwind(10)]
+fn c07_mem_bad_version_size() {
+    c07_mem_field(sto_h::C07_F_VERSION_SIZE);
+}
+
+//@ id=C07 tier=quick timeout=900 cbmc="--max-field-sensitivity-array-size 200" args="--no-assertion-reach-checks" bounds="valid 65-byte image, value bytes symbolic, index field of the last record replaced by 6, 2^40, 2^62, 2^64-1 (enumerated: a symbolic index exhausts the solver memory); back end MemoryStorage; loops bounded by 9 iterations; free index = contract model" desc="Storage::<MemoryStorage>::with_data on a file whose last record carries an arbitrary index returns Ok or Err without panic, overflow, or work / allocation proportional to the index value (record table sized by a number read from the file)" kernel="Storage::with_data,Storage::read_records,Storage::read_record,StorageRecords::set_record,StorageRecords::rebuild_free_index"
+#[kani::proof]
+#[kani::stub(std::fmt::format, crate::verif_support::fmt_stub)]
+#[kani::stub(crate::DbError::new, crate::verif_support::dberror_new_stub)]
+#[kani::stub(<crate::DbError as std::convert::From<std::array::TryFromSliceError>>::from, crate::verif_support::sliceerr_stub)]
+#[kani::stub(crate::storage::storage_records::StorageRecords::mark_free, crate::storage::storage_records::verif_h::c04_mark_free_model)]
+#[kani::unwind(10)]
+fn c07_mem_bad_record_index() {
+    let base = sto_h::c07_valid_image();
+    let cases: [u64; 4] = [6, 1 << 40, 1 << 62, u64::MAX];
+    let mut k = 0;
+    while k < 4 {
+        let mut img = base;
+        sto_h::c07_put64(&mut img, sto_h::C07_F_REC2_INDEX, cases[k]);
+        sto_h::c07_open_case(c07_mem(&img, sto_h::C07_VALID_LEN), 3);
+        k += 1;
+    }
+    kani::cover!(true, "end of harness reachable");
+}
